@@ -10,7 +10,7 @@ import vf
 
 PROP = 'C06'
 CFG = {'quick': 'gen/MC_C06_q.cfg', 'thorough': 'gen/MC_C06_t.cfg'}
-FORMATS = ['cbor']          # formats whose reference decoder and image are in Trace_C06
+FORMATS = ['cbor', 'msgpack', 'ubjson', 'bson']          # formats whose reference decoder and image are in Trace_C06
 
 
 def setup():
